@@ -297,6 +297,7 @@ func run(c *core.Ctx) {
 	txm.ResetHooks()
 	mark := h.Rec.Mark()
 	err := exec(bound)
+	liveErr := err
 	evs := ctxEvents(h.Rec.Since(mark))
 	hooks := txm.H.Log
 	var problems []string
@@ -365,6 +366,41 @@ func run(c *core.Ctx) {
 			p = append(p, "no error returned for a cancelled context")
 		}
 		c.Violation("cancelled/"+strings.Fields(o.desc)[0], map[string]interface{}{"op": desc, "problems": p})
+	}
+	// (2b) a handle bound to a (cancelled) context and bound again to context.Background(): the operation runs under
+	// the new context; nothing of the old one (its value, its cancellation) reaches a driver call or a hook
+	if c.Case%3 == 0 {
+		if err := reseed(h); err != nil {
+			c.Inconclusive("could not restore the tables: " + err.Error())
+			return
+		}
+		rebound := mk(cctx).WithContext(context.Background())
+		if c.Case%2 == 0 {
+			rebound = mk(cctx).Session(&gorm.Session{Context: context.Background()})
+		}
+		txm.ResetHooks()
+		mark = h.Rec.Mark()
+		rerr := exec(rebound)
+		var p []string
+		for _, e := range ctxEvents(h.Rec.Since(mark)) {
+			if e.CtxVal != nil || e.CtxErr != nil {
+				p = append(p, fmt.Sprintf("a driver call of the re-bound handle still carries the old context (value %v, err %v): %s", e.CtxVal, e.CtxErr, short(e.String())))
+				break
+			}
+		}
+		for _, hk := range txm.H.Log {
+			if hk.CtxVal != nil {
+				p = append(p, fmt.Sprintf("hook %s of the re-bound handle received the old context (value %v)", hk.String(), hk.CtxVal))
+				break
+			}
+		}
+		if (rerr == nil) != (liveErr == nil) {
+			p = append(p, fmt.Sprintf("re-bound to context.Background() the operation returned %v, under its live context %v", rerr, liveErr))
+		}
+		c.Inc("rebound_to_background_runs")
+		if len(p) > 0 {
+			c.Violation("rebound/"+strings.Fields(o.desc)[0], map[string]interface{}{"op": desc, "problems": p})
+		}
 	}
 	// (3) cancelled in mid-operation, at up to 3 (thorough: every) positions
 	K := len(evs)
